@@ -1,6 +1,6 @@
 #!/bin/bash
 # usage: seed_batch.sh C10 C11 ...   (evaluates /tmp/seedout/<pid>/patch{1,2}.diff against the scratch worktree /tmp/wt/seedrun)
-export VERIF_REPO=/tmp/wt/seedrun
+export VERIF_REPO=${VERIF_REPO:-/tmp/wt/seedrun}
 mkdir -p /verif/build/seedlogs
 for p in "$@"; do for k in 1 2; do
   if [ -f /tmp/seedout/$p/patch$k.diff ] && [ -f /tmp/seedout/$p/demo$k.py ]; then
